@@ -211,8 +211,11 @@ def run(prop, tier, replay=None):
     seed = common.seed()
     n = 600 if tier == "quick" else 20000
     cases = [gen_case(rng, i) for i in range(n)]
-    if replay:
-        cases = [json.load(open(replay))["case"]]
+    rp = json.load(open(replay)) if replay else None
+    if rp is not None and rp.get("kind") == "wire-pair":
+        cases = []
+    elif replay:
+        cases = [rp["case"]]
     traces = common.pool_map(run_case, cases, chunksize=32)
     for i, t in enumerate(traces):
         t["tid"] = i + 1
@@ -236,7 +239,10 @@ def run(prop, tier, replay=None):
     rep.extra["verdicts"] = counts
     # lazy vs eager pairs
     npairs = 60 if tier == "quick" else 2000
-    pres = common.pool_map(_pair, [(seed, i) for i in range(npairs)], chunksize=2) if not replay else []
+    if rp is not None and rp.get("kind") == "wire-pair":
+        pres = [_pair((rp["seed"], rp["i"]))]
+    else:
+        pres = common.pool_map(_pair, [(seed, i) for i in range(npairs)], chunksize=2) if not replay else []
     ptr, owner = [], {}
     for r in pres:
         if "trace" in r:
